@@ -355,8 +355,16 @@ Definition const_attrs (cfg : config) : list attr :=
 Definition last_piece (s : str) : str := last (split_chr 95 s) [].     (* name.split("_")[-1] *)
 
 (* map_binding_operation *)
+(* config.setdefault("style", "document") *)
+Definition set_default_style (cfg : config) : config :=
+  match cf_style cfg with
+  | Some _ => cfg
+  | None => mk_config (Some m_default_style) (cf_location cfg) (cf_transport cfg) (cf_action cfg)
+  end.
+
 Definition map_binding_operation (d : definitions) (bo : b_operation) (po : pt_operation)
-           (cfg : config) (pt_nm : str) : option (list aclass) :=
+           (cfg0 : config) (pt_nm : str) : option (list aclass) :=
+  let cfg := set_default_style cfg0 in
   let style := match cf_style cfg with Some s => s | None => m_default_style end in
   let name := pt_nm ++ [95] ++ bo_name bo in
   let namespace := operation_namespace (cf_transport cfg) in
